@@ -310,6 +310,9 @@ pub fn run(report: &Report) {
     explore_ans::<U32U64>(report, &inits_with_binary::<U32U64>(), &small_alphabet::<U32U64>(), if q { 3 } else { 4 }, "mixed-precision-14");
     explore_ans::<U64U128>(report, &inits_with_binary::<U64U128>(), &small_alphabet::<U64U128>(), if q { 2 } else { 3 }, "mixed-precision-14");
     super::c16::inspection_checks(report);
+    super::pyfront::sweep(report, "symbol", if q { 3 } else { 4 },
+        "Python symbol.StackCoder / QueueEncoder with every Huffman book of the sweep and every message up to 3 symbols: a twin on which get_compressed_and_bitrate and get_decoder are called between all symbols gives the same words and bit rate",
+        &["inspections"], &[]);
     super::pyfront::sweep(report, "sizes", if q { 5 } else { 7 },
         "every message up to the listed length over 3 symbols x 2 models on the Python AnsCoder and RangeEncoder: a twin that is inspected between all symbols (get_compressed, num_words, num_bits, num_valid_bits, is_empty, pos, clone, get_decoder) produces the same words",
         &["inspections", "second call", "get_decoder"], &[]);
